@@ -51,6 +51,18 @@ CHECKS = {
          'vectors x c_reuse x strip_forks is interpreted cell by cell (ownership) so that any overlap of live data is seen',
          'trusted: RefHeap and the ownership interpreter in checks/c08.py; canonical state = complete Heap state; TLC model replay is thorough-tier only',
          'DESIGN.md section 4 C08'),
+
+ 'C09': ('model_checking', 'explicit-state BFS over edit histories of the real Circuit with invariants and lock-step reference model',
+         'all histories of public edit operations (12 operation kinds over pools of 2-3 fork and 2-3 cell names) from the empty circuit up to depth 6 (quick) / 7 (thorough) '
+         'and from seeded non-initial states are executed on the real object by history replay; states are deduplicated on the full observable structure; '
+         'every transition is checked against structural invariants and a dict/list reference netlist',
+         'trusted: invariants and Model in checks/c09.py; only well-formed operations are generated (listed in the evidence assumptions)',
+         'DESIGN.md section 4 C09'),
+ 'C10': ('exploration', 'bounded exhaustive enumeration of transformations vs. reference truth tables',
+         'every family circuit x style x every transformation sequence of length <= 2; every implementation shape with <= 2 gates x every subset of connected '
+         'instance pins x 3 contexts; every library cell x pin subsets; all orders of multi-instance designs with empty implementations; compared by '
+         'truth table over ports and state elements, names/order, and the C09 invariants',
+         'trusted: reference graph evaluator; two readings accepted for an open input of a variadic gate', 'DESIGN.md section 4 C10'),
 }
 
 NOT_YET = 'check not built yet in this session (see DESIGN.md build order); will be claimed once its exhaustive check exists'
